@@ -13,7 +13,7 @@ from . import qsyntax, c01
 from .c03 import plain
 
 ID = "C17"
-GEN = ["Mods"]
+GEN = ["Mods", "Ph"]
 RULE = ("values with 0..3 placeholders mixed with literals, wildcards and escaped percent signs in string, keyword and "
         "regular-expression position under expand combined with contains/startswith/endswith/all/cased; x pipelines of 0..3 "
         "placeholder items (value list, wildcard, query expression; include/exclude lists) in any order; x variable tables "
@@ -122,7 +122,7 @@ def var_json(v):
 
 
 def make_request(case, impl, gen):
-    r = c01.make_request(case, impl, gen)
+    r = c01.make_sem_request(case, impl, gen)
     r["phItems"] = [{"kind": it["kind"], "include": [cps(x) for x in it["include"]] if it["include"] is not None else None,
                      "exclude": [cps(x) for x in it["exclude"]] if it["exclude"] is not None else None,
                      "expr": cps(qsyntax.QX_EXPR), "mapping": [[cps(k), cps(v)] for k, v in it.get("mapping", {}).items()]}
@@ -154,7 +154,7 @@ def judge(case, impl, reply):
         from .common import uncps
         return Verdict("violation", (f"{case['dets']} with pipeline {case['pipe']}: the specification demands a Sigma error ({r['specErr']}: "
                                      f"{r.get('detail', '')} {uncps(r.get('name', []))!r}) but the conversion returned {impl.get('queries')}"), nt, key, tags=tuple(tags))
-    return c01.judge(case, impl, reply)._replace_tags(tags) if False else _with(c01.judge(case, impl, reply), nt, key, tags)
+    return _with(c01.judge_sem(case, impl, reply), nt, key, tags)
 
 
 def _with(v, nt, key, tags):
